@@ -211,6 +211,11 @@ def check(ctx, res) -> None:
             "create_finder installs a PyNameFilter for the queried binding on every path" if oki else
             "create_finder can return a finder without a PyNameFilter for the queried binding: no occurrence (or an unrelated one) is accepted")
 
+    # ---- R02.4 (=R01.1): whether two occurrences are the same binding rests on the lookup chain skipping class scopes
+    from .c01 import class_scope_rule
+
+    class_scope_rule(ctx, res, "R02.4")
+
 
 def _group_sources(pat: str) -> Dict[str, str]:
     """source text of each top-level named alternative (split on top-level '|')"""
@@ -245,8 +250,3 @@ def _group_sources(pat: str) -> Dict[str, str]:
             name = alt[4:alt.index(">")]
             res[name] = alt[alt.index(">") + 1:-1]
     return res
-
-    # ---- R02.4 (=R01.1): whether two occurrences are the same binding rests on the lookup chain skipping class scopes
-    from .c01 import class_scope_rule
-
-    class_scope_rule(ctx, res, "R02.4")
